@@ -223,7 +223,7 @@ def wildmask_st(draw, kmax: int = 4, nc_only: bool = False):
 def addr_st(draw, kmax: int = 4, groups: bool = False, members: bool = True, kinds=None):
     kinds = kinds or ["any", "host", "host", "host0", "prefix", "prefix", "wild", "wild", "wild", "allones"]
     if groups:
-        kinds = kinds + ["group", "group", "group"]
+        kinds = kinds + ["group", "group"]
     k = draw(st.sampled_from(kinds))
     base = draw(base_st())
     if k == "any":
@@ -289,7 +289,8 @@ def port_st(draw, platform: str = "ios", names=None, allow_none=True, empty_sets
     return {"op": op, "v": vals, "nm": nm}
 
 
-PROTO_ST = st.one_of(st.sampled_from([0, 0, 6, 6, 6, 17, 17, 1, 47]), st.integers(0, 255))
+_COMMON = st.sampled_from([0, 0, 6, 6, 6, 6, 17, 17, 17, 1, 47])
+PROTO_ST = st.one_of(_COMMON, _COMMON, _COMMON, st.integers(0, 255))
 
 
 @st.composite
